@@ -220,8 +220,16 @@ def run(ctx):
     else:
         body = miss[0].body
         A = {"s": "options.get('strict')", "a": "options.get('strict_allow_default')", "nd": "'default' not in field", "nn": "'null' not in field_type"}
+        # the "accepts null" atom by role: the comparison or call in the block that looks at the field's type (what it
+        # answers for which type is C10.R11's decision table)
+        nn_positive = None
+        for t_ in ast.walk(ast.Module(body=list(body), type_ignores=[])):
+            if isinstance(t_, ast.Call) and isinstance(t_.func, ast.Name) and len(t_.args) == 1 and norm(t_.args[0]) == "field_type" and p.resolve_func(wrf.mod, t_.func) is not None:
+                nn_positive = norm(t_)
         for s, sa_, d, n_ in itertools.product([0, 1], repeat=4):
             atoms = {A["s"]: bool(s), A["a"]: bool(sa_), A["nd"]: not d, A["nn"]: not n_}
+            if nn_positive is not None:
+                atoms[nn_positive] = bool(n_)
             out = guards.run_chain(body, {}, atoms)
             if out[0] == "unknown":
                 ctx.unrecognised("C10.R4", f"write_record cell strict={s} sad={sa_} default={d} nullable={n_}", wrf.where(miss[0]), f"guard `{norm(out[1])}` not a formula over the four atoms")
@@ -283,6 +291,46 @@ def run(ctx):
     ctx.borrow("C09", {"C09.R1": "C10.R6"}, "everything validate accepts the writers must encode and vice versa: the (name, value) hint vocabularies and the guard enabling tuple notation must be the same function on both sides")
 
     # ---- shared ----
+    # ---- R11 absent fields: the writer refuses exactly what validate refuses -----------------------------------------
+    ctx.rule("C10.R11", "write_record on an absent field without default: accepted exactly when the field's type accepts null (a 'null' type or a union with a null branch, in string or dict form), as _validate decides it; decision table over representative field types evaluated by the rule's own evaluator", floor=6)
+    from sa import guards as _g11
+
+    wr11 = a.writers.funcs("record")[0]
+    loops11 = [n for n in walk_local(wr11.node) if isinstance(n, ast.For) and "['fields']" in norm(n.iter) and isinstance(n.target, ast.Name)]
+    if len(loops11) != 1:
+        ctx.unrecognised("C10.R11", "write_record", wr11.where(), "expected one loop over schema['fields']")
+    else:
+        lp11 = loops11[0]
+        F11 = lp11.target.id
+        D11 = wr11.pos_params[1]
+        O11 = wr11.pos_params[5] if len(wr11.pos_params) > 5 else "options"
+        # the statements of the loop body up to (not including) the first statement that encodes (calls write_data)
+        body11 = []
+        for st in lp11.body:
+            if any(isinstance(c, ast.Call) and isinstance(c.func, ast.Name) and c.func.id == "write_data" for c in ast.walk(st)):
+                break
+            body11.append(st)
+        mods11 = [wr11.mod] + [m for m in p.modules.values() if m is not wr11.mod]
+        _g11.HOOK["call"] = _g11.program_call_evaluator(p, mods11)
+        _g11.HOOK["value"] = _g11.program_call_evaluator(p, mods11, want_value=True)
+        try:
+            table11 = [
+                ("'null'", "null", False), ("'int'", "int", True), ("['null', 'int']", ["null", "int"], False), ("['int', 'string']", ["int", "string"], True),
+                ("{'type': 'null'}", {"type": "null"}, False), ("[{'type': 'null'}, 'int']", [{"type": "null"}, "int"], False), ("{'type': 'int'}", {"type": "int"}, True),
+                ("a reference 'nullable.Rec'", "nullable.Rec", True),
+            ]
+            for label, ft, want_raise in table11:
+                env = {F11: {"name": "x", "type": ft}, D11: {}, O11: {}}
+                r = _g11.run_chain(list(body11), env, {}, effects=[])
+                inst = f"write_record: absent field of type {label} without default is {'refused' if want_raise else 'written as null'}"
+                if r[0] == "unknown":
+                    ctx.unrecognised("C10.R11", inst, wr11.where(lp11), f"`{norm(r[1])[:80]}` could not be evaluated")
+                else:
+                    got = r[0] == "raise"
+                    ctx.check("C10.R11", inst, got == want_raise, wr11.where(r[1]) if got and r[1] is not None else wr11.where(lp11), f"write_record: an absent field of type {label} is {'refused' if got else 'accepted'}", "validate accepts a record that leaves out a field whose type accepts null (whatever the spelling of the null branch) and rejects one that leaves out any other field without default: the writer must do the same, or a record validate accepts cannot be written (or one it rejects is written as garbage)")
+        finally:
+            _g11.HOOK["call"] = _g11.HOOK["value"] = None
+
     ctx.borrow("C16", {"C16.R8": "C10.R10"}, "validate runs the logical preparer before the per-type validator, for every candidate branch of a union: a preparer that raises for a value it does not convert turns a plain 'does not match this branch' into an exception")
     ctx.borrow("C02", {"C02.R5": "C10.R9"}, "what validate accepts is what the writer must encode: the record validator judges `datum.get(name, default)`; a writer that substitutes the default on any other condition than an absent key encodes a value validate never saw")
     ctx.borrow("C09", {"C09.R2": "C10.R7"}, "validate must reject a (name, value) hint naming no branch exactly as the writer does")
